@@ -133,6 +133,6 @@ HARNESSES = [
     Harness("H15a", h15a, quick=dict(K=3), thorough=dict(K=4), pattern="P3 bounded history", requires=["history", "several-orders"], outside=OUT,
             max_paths=(300000, 3000000), wall_s=(300, 3000)),
     Harness("H15b", h15b, quick=dict(n=2), pattern="P3/P5", requires=["adopted", "adopted-into-closed-market", "bet-id-view"], outside=OUT, max_paths=(300000, 3000000)),
-    Harness("H15c", h15c, quick=dict(n=2), thorough=dict(n=3), pattern="P1 kernel-with-oracle", requires=["filters"], outside=OUT, max_paths=(80000, 2000000)),
+    Harness("H15c", h15c, quick=dict(n=2), thorough=dict(n=3), pattern="P1 kernel-with-oracle", requires=["filters"], outside=OUT, max_paths=(80000, 5000000)),
 ]
 META = {"assumptions": ["structural property: little arithmetic; the schedule / statuses / fault outcomes are the symbolic part"]}
